@@ -799,6 +799,18 @@ pub fn inputs_c15(r: &mut Rng, n: usize, tier: &str, out: &mut dyn Write) {
         .max(0);
         writeln!(out, "series_dyn {} {}:{} {} {} {} {}", r.below(2), dstr(start), a, dstr(span), b, dstr(step), cap + 5).unwrap();
     }
+    for _ in 0..(n / 100).max(4) {
+        // the Iterator protocol on a short series: after k forward steps, each method std derives from next()
+        let a = *r.pick(&NONDYN);
+        let b = if r.chance(2, 3) { a } else { *r.pick(&NONDYN) };
+        let step = match r.below(4) { 0 => 1, 1 => SEC, 2 => DAY, _ => r.below(DAY as u64) as i128 + 1 };
+        let count = r.below(40) as i128;
+        let span = count * step + if r.chance(1, 2) { 0 } else { r.below(step as u64) as i128 };
+        let start = (r.range_i64(-100_000, 100_000) as i128) * DAY + r.below(DAY as u64) as i128;
+        let k = r.below(count as u64 + 3);
+        let m = *r.pick(&["last", "count", "nth", "min", "max", "rest", "step_by", "skip_take"]);
+        writeln!(out, "tsiter {} {}:{} {} {} {} {} {} {}", r.below(2), dstr(start), a, dstr(span), b, dstr(step), k, m, r.below(8)).unwrap();
+    }
     for _ in 0..(n / 300).max(2) {
         // word-size class: the offsets k x step cross 2^63 or 2^64 ns (a span of three to six centuries), or the items
         // themselves cross those counts (start near -2^63 / 0 / 2^63 - span)
@@ -1426,6 +1438,32 @@ pub fn exec(op: &str, a: &[&str]) -> Option<String> {
             ))
         }
         // ---- C15
+        // the series read through the Iterator protocol after k forward steps (the methods std derives from next()):
+        // next to the full forward listing (at most 400 items are generated)
+        "tsiter" => {
+            let incl = a[0] == "1";
+            let start = s2e(a[1]);
+            let end = (start + s2d(a[2])).to_time_scale(s2ts(a[3]));
+            let step = s2d(a[4]);
+            let (k, j): (usize, usize) = (a[5].parse().unwrap(), a[7].parse().unwrap());
+            let fresh = if incl { TimeSeries::inclusive(start, end, step) } else { TimeSeries::exclusive(start, end, step) };
+            let full: Vec<String> = fresh.clone().take(1000).map(e2s).collect();
+            let mut it = fresh.clone();
+            for _ in 0..k {
+                it.next();
+            }
+            let got: Vec<String> = match a[6] {
+                "last" => it.last().map(e2s).into_iter().collect(),
+                "count" => vec![it.count().to_string()],
+                "nth" => it.nth(j).map(e2s).into_iter().collect(),
+                "min" => it.min().map(e2s).into_iter().collect(),
+                "max" => it.max().map(e2s).into_iter().collect(),
+                "step_by" => it.step_by(j + 1).map(e2s).collect(),
+                "skip_take" => it.skip(j).take(3).map(e2s).collect(),
+                _ => it.map(e2s).collect(),
+            };
+            Some(format!("ok {} {}", if got.is_empty() { "-".to_string() } else { got.join(",") }, if full.is_empty() { "-".to_string() } else { full.join(",") }))
+        }
         "series_long" => {
             let incl = a[0] == "1";
             let start = s2e(a[1]);
